@@ -280,6 +280,11 @@ def _searches(tier):
                       "prelude": [["replace", 1, 0], ["replace", 2, 1], ["replace", 3, 2], ["replace", 4, 5]]}, 3))
         runs.append(({"n": 1, "m": 1, "npt": 2, "base": 2.0 ** 10, "max_pts": 3}, 5))
         runs.append(({"n": 3, "m": 2, "npt": 4, "base": 0.0, "max_pts": 5, "npts_alpha": 4}, 4))
+        # the documented option interpolation.precondition=False (wave k: the system left unscaled but the solution still
+        # divided by the point-set radius): growing from x0 alone and from a fitted set
+        runs.append(({"n": 2, "m": 2, "npt": 3, "base": 1.0, "max_pts": 4, "npts_alpha": 3, "precondition": False}, 3))
+        runs.append(({"n": 2, "m": 2, "npt": 3, "base": 2.0 ** 10, "max_pts": 4, "npts_alpha": 3, "precondition": False,
+                      "prelude": [["replace", 1, 0], ["replace", 2, 1], ["fit"]]}, 3))
         # the property's largest dimensions: a fitted full set in n = 6, m = 6 (interpolation, then regression by appending)
         runs.append(({"n": 6, "m": 6, "npt": 7, "base": 2.0 ** 10, "max_pts": 9, "npts_alpha": 3,
                       "prelude": [["replace", k, 2 + k] for k in range(1, 7)] + [["fit"]]}, 2))
